@@ -104,6 +104,28 @@ func c12Line(c *core.Ctx, mutate bool) string {
 	if c.Rng.Intn(400) == 0 {
 		l += strings.Repeat("x", 5000+c.Rng.Intn(6000))
 	}
+	if c.Rng.Intn(15) == 0 {
+		// Blanks of every kind around the line (all of these are white space
+		// for the trimming the statement refers to), and look-alikes that are
+		// not (byte order mark, zero-width space), which stay part of the text.
+		ws := []string{" ", "\t", "\v", "\f", "\r", "\u00a0", "\u0085", "\u2003", "\u3000", "\ufeff", "\u200b"}
+		for i, n := 0, 1+c.Rng.Intn(3); i < n; i++ {
+			w := ws[c.Rng.Intn(len(ws))]
+			switch c.Rng.Intn(3) {
+			case 0:
+				l = w + l
+			case 1:
+				l += w
+			default:
+				l = w + l + ws[c.Rng.Intn(len(ws))]
+			}
+		}
+		if c.Rng.Intn(6) == 0 && len(l) > 2 {
+			// A carriage return that does not end the line.
+			p := 1 + c.Rng.Intn(len(l)-1)
+			l = l[:p] + "\r" + l[p:]
+		}
+	}
 
 	return l
 }
